@@ -103,6 +103,25 @@ def mux_case(draw, nested):
     return {'tin': tin, 'branches': branches, 'join': join, 'layers': layers, 'items': items}
 
 
+LONG_BRANCHES = [[['filter_gt', 5]], [], [['scan_sum', False]], [['filter_mod', 2, 0]], [['take', 1]]]
+
+
+@st.composite
+def long_case(draw):
+    """Hundreds of key lifetimes on ONE re-used slot, a branch that speaks in the first lifetime(s) and then stays silent for
+    hundreds of them (per-slot join state must not come back after 255 / 256 / 512 ... resets)."""
+    w = draw(st.sampled_from([1, 2]))
+    layer = draw(st.sampled_from([['roll', w, w], ['roll', w, w], ['split', 'mod', 2]]))
+    n = draw(st.sampled_from([530, 700, 1100]))
+    loud = draw(st.integers(1, 3))
+    items = [9] * loud + [draw(st.sampled_from([0, 1]))] * 0 + [(j % 2) for j in range(n - loud)]
+    nb = draw(st.sampled_from([2, 2, 3]))
+    branches = [LONG_BRANCHES[0]] + [draw(st.sampled_from(LONG_BRANCHES[1:])) for _ in range(nb - 1)]
+    if draw(st.booleans()):
+        branches = branches[1:] + branches[:1]
+    return {'tin': 'int', 'branches': branches, 'join': draw(st.sampled_from(['zip', 'zip', 'combine_latest'])), 'layers': [layer], 'items': items}
+
+
 def check_mux(case):
     branches, join, items, layers = case['branches'], case['join'], case['items'], case['layers']
     tee_node = ['tee', join, branches]
@@ -229,6 +248,8 @@ def subs(tier):
             doc='tee_map on one multiplexed key vs join of branches run alone (cause-tagged)'),
         Sub('nested', check_mux, gen=lambda: mux_case(True), examples={'quick': 1200, 'thorough': 100000},
             doc='the same per key lifetime under group_by / roll / split / time_split (1-2 levels; slot re-use)'),
+        Sub('long', check_mux, gen=long_case, examples={'quick': 24, 'thorough': 600},
+            doc='500-1100 key lifetimes on one re-used slot with a branch that falls silent after the first ones, vs branches run alone'),
         Sub('describe', check_describe, gen=describe_case, examples={'quick': 300, 'thorough': 20000},
             doc='rs.math.dist.describe (a tee_map of metric operators) == its metrics computed separately; several describe() per process'),
         Sub('plain', check_plain, gen=plain_case, examples={'quick': 1200, 'thorough': 100000},
